@@ -364,7 +364,8 @@ c06 = pool_prop(
     "followed by the owner's request with the same (smaller-or-equal, fresh) nonce; compared: complete projected state "
     "before/after the refused request, host registrations, agent calls, and the owner's acceptance",
     lambda tier: [("VipStoreMC", "VipStoreMC_nonce.cfg")] + ([("VipPoolMC", "VipPoolMC_bill_q.cfg")] if tier == "quick" else [("VipPoolMC", "VipPoolMC_bill.cfg")]),
-    weights=dict(forged=40, forgedrun=8, stale=8, update=20, sleep=6))
+    weights=dict(forged=40, forgedrun=8, stale=8, update=20, sleep=6),
+    extra_jobs=lambda s, tier, work: nonce_race_jobs("c06race", s, tier, work))
 
 c07 = pool_prop(
     "c07", "C07",
